@@ -89,7 +89,7 @@ func genC11(t *rapid.T) C11Case {
 		c.Supi = rapid.SampledFrom([]string{"nodash", "nai", "gci", "gli", "short", "slash", "dotdot", "long", "empty", "imsi-only", "unknown"}).Draw(t, "supi")
 	}
 	if c.Route != "create" && rapid.IntRange(0, 4).Draw(t, "oddRef") == 0 {
-		c.Ref = rapid.SampledFrom([]string{"unknown", "slashy", "long", "percent"}).Draw(t, "ref")
+		c.Ref = rapid.SampledFrom([]string{"unknown", "slashy", "long", "percent", "supi", "supi-dash", "prefix", "empty-counter"}).Draw(t, "ref")
 	}
 	if c.Route == "create" || c.Route == "lifecycle" {
 		c.OneTime = rapid.IntRange(0, 5).Draw(t, "oneTime") == 0
@@ -349,6 +349,18 @@ func judgeC11(c C11Case) *h.Verdict {
 			r = ref + strings.Repeat("z", 2000)
 		case "percent":
 			r = "%2e%2e%2f" + ref
+		case "supi": // the reference equals the subscriber identifier itself
+			r = supi
+		case "supi-dash":
+			r = supi + "-"
+		case "prefix": // the real reference without its last character
+			if len(ref) > 1 {
+				r = ref[:len(ref)-1]
+			}
+		case "empty-counter": // the real reference without its counter
+			if i := strings.LastIndex(ref, "-"); i > 0 {
+				r = ref[:i+1]
+			}
 		}
 		method, path = "POST", prefix+"/chargingdata/"+r+"/"+c.Route
 	case "recharge":
